@@ -361,12 +361,14 @@ def unrepresentable_checks(bdir, seed):
         img = sqfsdec.decode(os.path.join(s, "o.sqfs")) if r.rc == 0 else None
         if r.rc != 0 or not img.ok() or (b"n" * 256) not in img.tree:
             out.append(("name-256-bytes-ok", "a 256 byte name was refused or stored altered"))
-        # more distinct ids than the 16 bit id table can hold
-        r = pack(b"".join(b"pipe /p%d 0644 %d 0\n" % (i, i + 1) for i in range(65537)), binary=plain); n += 1
+        # one more distinct id than the 16 bit id count of the super block can express (65535): uid 0 of the root plus 65535 others
+        r = pack(b"".join(b"pipe /p%d 0644 %d 0\n" % (i, i + 1) for i in range(65535)), binary=plain); n += 1
         if r.rc == 0:
-            out.append(("ids-65537", "65538 distinct ids accepted with exit 0"))
+            img = sqfsdec.decode(os.path.join(s, "o.sqfs"))
+            if not img.ok() or img.invalid or len(img.ids) != 65536:
+                out.append(("ids-65536", "65536 distinct ids accepted with exit 0, image: %s" % ((img.errors or img.invalid or ["%d ids" % len(img.ids)])[0])))
         elif not r.stderr.strip():
-            out.append(("ids-65537-silent", "refused without diagnostic"))
+            out.append(("ids-65536-silent", "refused without diagnostic"))
         # distinct xattr sets across the 512-descriptor block boundary (1100 sets, some sharing a long value)
         body = b"".join(b"file /f%04d 0644 0 0 in\n" % i for i in range(1100))
         xa = b"".join(b"# file: f%04d\nuser.n=0x%08x\nuser.shared=0x%s\n\n" % (i, i, b"ab" * 200) for i in range(1100))
@@ -385,10 +387,10 @@ def unrepresentable_checks(bdir, seed):
             if bad:
                 out.append(("xattr-1100-sets", "xattrs do not read back: %s" % ((img.errors or img.invalid or ["value mismatch"])[0])))
         if tier() == "thorough":
-            r = pack(b"".join(b"pipe /p%d 0644 %d 0\n" % (i, i + 1) for i in range(65535)), binary=plain); n += 1
+            r = pack(b"".join(b"pipe /p%d 0644 %d 0\n" % (i, i + 1) for i in range(65534)), binary=plain); n += 1
             img = sqfsdec.decode(os.path.join(s, "o.sqfs")) if r.rc == 0 else None
-            if r.rc != 0 or not img.ok() or img.invalid or img.tree[b"p65534"].uid != 65535:
-                out.append(("ids-65536-ok", "65536 distinct ids refused or stored altered"))
+            if r.rc != 0 or not img.ok() or img.invalid or img.tree[b"p65533"].uid != 65534 or len(img.ids) != 65535:
+                out.append(("ids-65535-ok", "65535 distinct ids (the most the id count can express) refused or stored altered"))
             # > 4 GiB file made of holes with data at both ends
             os.makedirs(os.path.join(s, "tree"))
             size = (4 << 30) + 12345
